@@ -543,7 +543,9 @@ func (s *state) evalCall(node *ast.CallNode) {
 		}
 	}()
 
+	notifyCall(calledTmpl.Node.Name, true)
 	state.walk(calledTmpl.Node)
+	notifyCall(calledTmpl.Node.Name, false)
 }
 
 // renderBlock is a helper that renders the given node to a temporary output
